@@ -7,14 +7,30 @@
 //! or `Err`, never panic, never hang), `sym` (small symmetric integer matrices — exact zeros and ties in the
 //! iterates; judged for accuracy by the plug-in only when its own reference computation finds the matrix inside
 //! the accuracy quantifier, otherwise like `term`), `shape` (non-square / empty: `NonSquareMatrix`).
+//! Hardening halves: `nsym` (non-symmetric S D S^-1 built exactly from small integer data, triangular, Markov:
+//! a strictly dominant real eigenvalue with gap <= 1/2 by construction, re-checked by the plug-in's own reference;
+//! must succeed; residual clause judged exactly), `gen` (small non-symmetric integer matrices, judged like `nsym` when
+//! the reference finds them inside the quantifier, otherwise like `term`), `accbig` / `nsymbig` (the same two
+//! constructions at n = 9..40: must succeed; residual judged exactly, the eigenvalue by exact inertia counts in the
+//! symmetric case).
+//!
+//! Verdicts decided here for every half: outcome kind, shape of v; whenever an eigenpair is returned it is finite
+//! and its largest component is exactly 1 (no `Ok(NaN)`); every container type the entry point accepts
+//! (`&Arr2D<f64>`, `Vec<Vec<f64>>`, `&Vec<Vec<f64>>`, and `&Vec<Vec<i32|f32>>`, `&Arr2D<i32|f32>` when they can hold
+//! the numbers) gives the same answer bit for bit (which also makes every request a repeated call); on `shape`
+//! requests, ragged nested vectors of every row-length tuple derived from the request are rejected.
 use crate::util::*;
 use spindalis::eigen::power_method;
 use spindalis::utils::{Arr2D, Arr2DError};
 use std::sync::mpsc;
 use std::time::Duration;
 
-/// the cap of the source makes every call finite; a call that needs longer than this is a hang
+/// the cap of the source makes every call finite (the slowest request of the tiers needs ~0.1 s); a call that
+/// needs longer than this is a hang.  A loaded machine can stall a thread for seconds, so the first time-out is
+/// only believed after a second, longer wait; once one hang is confirmed the later calls use the short wait only.
 const WATCHDOG: Duration = Duration::from_secs(10);
+const WATCHDOG_CONFIRM: Duration = Duration::from_secs(35);
+static HANG_SEEN: std::sync::atomic::AtomicBool = std::sync::atomic::AtomicBool::new(false);
 
 fn to_arr(h: usize, w: usize, v: &[f64]) -> Arr2D<f64> {
     let mut a = Arr2D::full(0.0f64, h, w);
@@ -37,23 +53,143 @@ fn show(a: &Arr2D<f64>) -> String {
     s
 }
 
+type Res = Result<(f64, Arr2D<f64>), Arr2DError>;
+
 enum Run {
-    Done(Result<(f64, Arr2D<f64>), Arr2DError>),
+    Done(Res),
     Panic,
     Hang,
 }
 
-fn call(a: Arr2D<f64>, es: f64) -> Run {
+fn call(f: impl FnOnce() -> Res + Send + 'static) -> Run {
+    use std::sync::atomic::Ordering;
     let (tx, rx) = mpsc::channel();
     std::thread::spawn(move || {
-        let r = catch(|| power_method(&a, es));
+        let r = catch(f);
         let _ = tx.send(r);
     });
-    match rx.recv_timeout(WATCHDOG) {
+    let first = rx.recv_timeout(WATCHDOG);
+    let got = match first {
+        Err(_) if !HANG_SEEN.load(Ordering::Relaxed) => rx.recv_timeout(WATCHDOG_CONFIRM),
+        other => other,
+    };
+    match got {
         Ok(Some(r)) => Run::Done(r),
         Ok(None) => Run::Panic,
-        Err(_) => Run::Hang,
+        Err(_) => {
+            HANG_SEEN.store(true, Ordering::Relaxed);
+            Run::Hang
+        }
     }
+}
+
+/// canonical observation of one call
+fn observe(r: &Run) -> String {
+    match r {
+        Run::Panic => "panic".into(),
+        Run::Hang => "hang".into(),
+        Run::Done(Ok((lam, vec))) => format!("ok {} {}", fbits(*lam), show(vec)),
+        Run::Done(Err(Arr2DError::NonSquareMatrix)) => "err nonsquare".into(),
+        Run::Done(Err(Arr2DError::NoConvergence)) => "err noconv".into(),
+        Run::Done(Err(e)) => format!("err other {e:?}"),
+    }
+}
+
+fn rows_of<T: Copy>(h: usize, w: usize, v: &[T]) -> Vec<Vec<T>> {
+    (0..h).map(|i| v[i * w..(i + 1) * w].to_vec()).collect()
+}
+
+/// the other container types `power_method` accepts for these numbers: (name, observation)
+fn other_containers(h: usize, w: usize, v: &[f64], es: f64) -> Vec<(&'static str, String)> {
+    let mut out = Vec::new();
+    // a nested Vec cannot say "0 rows of w columns"; Arr2D can
+    if h == 0 && w != 0 {
+        return out;
+    }
+    let vv = rows_of(h, w, v);
+    let owned = vv.clone();
+    out.push(("Vec<Vec<f64>>", observe(&call(move || power_method(owned, es)))));
+    let borrowed = vv.clone();
+    out.push(("&Vec<Vec<f64>>", observe(&call(move || power_method(&borrowed, es)))));
+    let int_ok = v.iter().all(|x| x.fract() == 0.0 && x.abs() <= 1e9 && !(*x == 0.0 && x.is_sign_negative()));
+    if int_ok {
+        let vi: Vec<i32> = v.iter().map(|x| *x as i32).collect();
+        let nested = rows_of(h, w, &vi);
+        out.push(("&Vec<Vec<i32>>", observe(&call(move || power_method(&nested, es)))));
+        let mut a = Arr2D::full(0i32, h, w);
+        for i in 0..h {
+            for j in 0..w {
+                a[(i, j)] = vi[i * w + j];
+            }
+        }
+        out.push(("&Arr2D<i32>", observe(&call(move || power_method(&a, es)))));
+    }
+    let f32_ok = v.iter().all(|x| x.is_finite() && ((*x as f32) as f64).to_bits() == x.to_bits());
+    if f32_ok {
+        let vf: Vec<f32> = v.iter().map(|x| *x as f32).collect();
+        let nested = rows_of(h, w, &vf);
+        out.push(("&Vec<Vec<f32>>", observe(&call(move || power_method(&nested, es)))));
+        let mut a = Arr2D::full(0f32, h, w);
+        for i in 0..h {
+            for j in 0..w {
+                a[(i, j)] = vf[i * w + j];
+            }
+        }
+        out.push(("&Arr2D<f32>", observe(&call(move || power_method(&a, es)))));
+    }
+    out
+}
+
+/// ragged nested vectors: every row-length tuple in 0..=3 over 2 and 3 rows with at least one row differing from
+/// the first (this includes tuples whose total equals rows x first length, e.g. (2,1,3)); entries from the request.
+/// Each must be refused as `InconsistentRowLengths`, owned and borrowed.
+fn ragged_verdict(v: &[f64], es: f64) -> Result<(), String> {
+    let pool: Vec<f64> = if v.is_empty() { vec![1.0, 2.0, 3.0] } else { v.to_vec() };
+    for rows in 2..=3usize {
+        let mut lens = vec![0usize; rows];
+        loop {
+            if lens.iter().any(|l| *l != lens[0]) {
+                let mut k = 0usize;
+                let nested: Vec<Vec<f64>> = lens
+                    .iter()
+                    .map(|l| {
+                        (0..*l)
+                            .map(|_| {
+                                k += 1;
+                                pool[k % pool.len()]
+                            })
+                            .collect()
+                    })
+                    .collect();
+                let owned = nested.clone();
+                for (name, r) in [
+                    ("&Vec<Vec<f64>>", catch(|| power_method(&nested, es))),
+                    ("Vec<Vec<f64>>", catch(move || power_method(owned, es))),
+                ] {
+                    match r {
+                        Some(Err(Arr2DError::InconsistentRowLengths)) => {}
+                        Some(Err(e)) => return Err(format!("ragged {name} with row lengths {lens:?}: error kind {e:?}, expected InconsistentRowLengths")),
+                        Some(Ok(_)) => return Err(format!("ragged {name} with row lengths {lens:?} accepted")),
+                        None => return Err(format!("ragged {name} with row lengths {lens:?}: panic")),
+                    }
+                }
+            }
+            // next tuple
+            let mut i = 0;
+            while i < rows {
+                lens[i] += 1;
+                if lens[i] <= 3 {
+                    break;
+                }
+                lens[i] = 0;
+                i += 1;
+            }
+            if i == rows {
+                break;
+            }
+        }
+    }
+    Ok(())
 }
 
 pub fn run(line: &str) -> Obs {
@@ -64,35 +200,61 @@ pub fn run(line: &str) -> Obs {
     let (h, w, v) = t.mat_f64();
     let es = t.f64();
     let square = h == w && h > 0;
-    match call(to_arr(h, w, &v), es) {
-        Run::Panic => Obs::with("panic".into(), Err("power_method panicked".into())),
-        Run::Hang => Obs::with("hang".into(), Err(format!("power_method did not return within {WATCHDOG:?}"))),
+    let must_succeed = matches!(half.as_str(), "acc" | "accbig" | "nsym" | "nsymbig");
+    let a = to_arr(h, w, &v);
+    let r = call(move || power_method(&a, es));
+    let obs = observe(&r);
+    let mut verdict = match &r {
+        Run::Panic => Err("power_method panicked".into()),
+        Run::Hang => Err(format!("power_method did not return within {:?}", WATCHDOG + WATCHDOG_CONFIRM)),
         Run::Done(Ok((lam, vec))) => {
-            let verdict = if !square {
+            if !square {
                 Err(format!("{h}x{w} input accepted"))
             } else if vec.height != h || vec.width != 1 {
                 Err(format!("eigenvector has shape {}x{}, expected {h}x1", vec.height, vec.width))
             } else {
-                Ok(())
-            };
-            Obs::with(format!("ok {} {}", fbits(lam), show(&vec)), verdict)
+                // whatever the input: a returned eigenpair is finite and scaled to largest component exactly 1
+                let comps: Vec<f64> = (0..h).map(|i| vec[(i, 0)]).collect();
+                if !lam.is_finite() || comps.iter().any(|c| !c.is_finite()) {
+                    Err("Ok with a non-finite eigenvalue or eigenvector component".into())
+                } else if !comps.iter().any(|c| *c == 1.0) || comps.iter().any(|c| *c > 1.0) {
+                    Err("Ok with an eigenvector whose largest component is not exactly 1".into())
+                } else {
+                    Ok(())
+                }
+            }
         }
         Run::Done(Err(Arr2DError::NonSquareMatrix)) => {
-            let verdict = if square { Err(format!("square {h}x{w} input rejected as non-square")) } else { Ok(()) };
-            Obs::with("err nonsquare".into(), verdict)
+            if square { Err(format!("square {h}x{w} input rejected as non-square")) } else { Ok(()) }
         }
         Run::Done(Err(Arr2DError::NoConvergence)) => {
-            let verdict = if !square {
+            if !square {
                 Err(format!("{h}x{w} input: expected NonSquareMatrix"))
-            } else if half == "acc" {
-                Err("no convergence on a symmetric matrix with spectral gap <= 1/2".into())
+            } else if must_succeed {
+                Err("no convergence on a matrix with a strictly dominant eigenvalue, gap <= 1/2, built inside the quantifier".into())
             } else {
                 Ok(())
-            };
-            Obs::with("err noconv".into(), verdict)
+            }
         }
-        Run::Done(Err(e)) => Obs::with(format!("err other {e:?}"), Err(format!("unexpected error kind {e:?}"))),
+        Run::Done(Err(e)) => Err(format!("unexpected error kind {e:?}")),
+    };
+    // every accepted container type answers the same (skipped after a hang: each further call would hang too; a call
+    // that ran into the iteration cap is the slowest kind of request, so only one in eight of those is repeated)
+    let capped = matches!(r, Run::Done(Err(Arr2DError::NoConvergence)));
+    let sampled = line.bytes().fold(0u32, |a, b| a.wrapping_mul(31).wrapping_add(b as u32)) % 8 == 0;
+    if verdict.is_ok() && !matches!(r, Run::Hang) && (!capped || sampled) {
+        for (name, o) in other_containers(h, w, &v, es) {
+            if o != obs {
+                verdict = Err(format!("container {name} answers `{}` but &Arr2D<f64> answers `{}` for the same numbers",
+                    &o[..o.len().min(60)], &obs[..obs.len().min(60)]));
+                break;
+            }
+        }
     }
+    if verdict.is_ok() && half == "shape" {
+        verdict = ragged_verdict(&v, es);
+    }
+    Obs::with(obs, verdict)
 }
 
 // ------------------------------------------------------------------------------------ generators
@@ -159,11 +321,16 @@ fn accuracy_case(rng: &mut Rng, n: usize) -> Vec<f64> {
         if c.abs() / (n as f64).sqrt() < 0.3 {
             continue;
         }
-        let mag = match rng.below(4) {
+        // the statement has no scale: 2^-70 .. 2^60 and far beyond (a stopping rule, a "zero" test or a guard in
+        // absolute units only shows far from 1)
+        let mag = match rng.below(7) {
             0 => 1.0,
             1 => rng.uniform(0.5, 20.0),
             2 => 2f64.powi(rng.range(-20, 20) as i32),
-            _ => rng.uniform(1e-3, 1e3),
+            3 => rng.uniform(1e-3, 1e3),
+            4 => 2f64.powi(*rng.pick(&[-70, 60, -40, 40, -100, 100])) * rng.uniform(0.5, 2.0),
+            5 => 2f64.powi(rng.range(-400, 400) as i32) * rng.uniform(0.5, 2.0),
+            _ => rng.uniform(0.5, 20.0),
         };
         let l1 = if rng.chance(1, 2) { -mag } else { mag };
         let gap = match rng.below(3) {
@@ -295,7 +462,278 @@ fn termination_case(rng: &mut Rng, n: usize, kind: u64) -> Vec<f64> {
     a
 }
 
+// ------------------------------------------------------------------ hardening: non-symmetric matrices, sizes
+
+/// integer S and S^-1 (row-major n x n): a product of elementary column shears, entries bounded by 40
+fn unimodular(rng: &mut Rng, n: usize, ops: usize) -> (Vec<i64>, Vec<i64>) {
+    let mut s = vec![0i64; n * n];
+    let mut si = vec![0i64; n * n];
+    for i in 0..n {
+        s[i * n + i] = 1;
+        si[i * n + i] = 1;
+    }
+    if n < 2 {
+        return (s, si);
+    }
+    for _ in 0..ops {
+        let i = rng.below(n as u64) as usize;
+        let mut j = rng.below(n as u64) as usize;
+        if j == i {
+            j = (j + 1) % n;
+        }
+        let c = *rng.pick(&[-2i64, -1, -1, 1, 1, 2]);
+        // S <- S (I + c e_j e_i^T): column i += c * column j;   S^-1 <- (I - c e_j e_i^T) S^-1: row j -= c * row i
+        let (mut s2, mut si2) = (s.clone(), si.clone());
+        for r in 0..n {
+            s2[r * n + i] += c * s[r * n + j];
+        }
+        for k in 0..n {
+            si2[j * n + k] -= c * si[i * n + k];
+        }
+        if s2.iter().chain(si2.iter()).all(|x| x.abs() <= 40) {
+            s = s2;
+            si = si2;
+        }
+    }
+    (s, si)
+}
+
+/// the scale of the dominant eigenvalue: m * 2^e with a short mantissa (so that every entry of A is exact)
+fn exact_scale(rng: &mut Rng) -> f64 {
+    let m = *rng.pick(&[1.0, 1.0, 3.0, 5.0, 7.0, 9.0]);
+    let e = match rng.below(6) {
+        0 | 1 => 0,
+        2 => rng.range(-20, 20) as i32,
+        3 => *rng.pick(&[-70, 60, -40, 40]),
+        4 => rng.range(-300, 300) as i32,
+        _ => rng.range(-3, 3) as i32,
+    };
+    let l = m * 2f64.powi(e);
+    if rng.chance(1, 2) { -l } else { l }
+}
+
+/// non-symmetric A = S diag(l1, l1 j_2/64, ..) S^-1, EXACT in binary64 (integer S, S^-1; |j_k| <= 31, so the gap is
+/// <= 0.485), with the all-ones vector's component along the dominant eigenvector between 0.3 and 30 of its length
+/// and the eigenvalue's condition number <= 50.  The dominant pair is (l1, first column of S).
+///
+/// Returned with the smallest tolerance the request may carry: the Rayleigh quotient of a non-normal matrix is
+/// first-order sensitive to the rounding errors of the iterate, so its relative noise is about n u (|A|_F/|l1|)^2 and
+/// the stopping rule cannot be met below that (observed: [[-95.5,118.75],[-77.2,96]], eigenvalues 1 and -0.49, never
+/// meets 1e-12).  The floor is 120 n u (|A|_F/|l1|)^2, a thousand times the observed failure level; matrices whose
+/// floor exceeds 1e-6 are not used.
+fn nsym_case(rng: &mut Rng, n: usize) -> (Vec<f64>, f64) {
+    let mut tries = 0;
+    loop {
+        tries += 1;
+        let ops = if tries > 200 { n } else { rng.range(n as i64, 4 * n as i64) as usize };
+        let (s, si) = unimodular(rng, n, ops);
+        let c0: i64 = (0..n).map(|k| si[k]).sum();
+        let s1: f64 = (0..n).map(|r| (s[r * n] * s[r * n]) as f64).sum::<f64>().sqrt();
+        let u1: f64 = (0..n).map(|k| (si[k] * si[k]) as f64).sum::<f64>().sqrt();
+        let along = c0.abs() as f64 * s1 / (n as f64).sqrt();
+        if !(0.3..=30.0).contains(&along) || s1 * u1 > 50.0 {
+            continue;
+        }
+        let mut j = vec![64i64; n];
+        let style = rng.below(4);
+        let common = rng.range(-31, 31);
+        for k in 1..n {
+            j[k] = match style {
+                0 => common,                                 // one repeated sub-dominant eigenvalue
+                1 => *rng.pick(&[31i64, -31, 0, 16, -16]),
+                2 => if k == 1 { *rng.pick(&[31i64, -31]) } else { 0 },
+                _ => rng.range(-31, 31),
+            };
+        }
+        let l1 = exact_scale(rng);
+        let unit = l1 / 64.0;
+        let mut a = vec![0.0; n * n];
+        for r in 0..n {
+            for c in 0..n {
+                let mut t = 0i64;
+                for k in 0..n {
+                    t += s[r * n + k] * j[k] * si[k * n + c];
+                }
+                a[r * n + c] = t as f64 * unit;
+            }
+        }
+        let fro2: f64 = a.iter().map(|x| (x / l1) * (x / l1)).sum();
+        let floor = 120.0 * n as f64 * (f64::EPSILON / 2.0) * fro2;
+        if floor > 1e-6 {
+            continue;
+        }
+        return (a, floor);
+    }
+}
+
+/// a tolerance of the usual distribution, raised to the matrix's floor when below it
+fn tolerance_above(rng: &mut Rng, floor: f64) -> f64 {
+    let t = tolerance(rng);
+    if t >= floor { t } else { (floor * rng.uniform(1.0, 10.0)).min(1e-4) }
+}
+
+/// triangular with an exact dominant diagonal entry (the eigenvalues are the diagonal): upper or lower
+fn triangular_case(rng: &mut Rng, n: usize) -> Vec<f64> {
+    let l1 = exact_scale(rng);
+    let unit = l1 / 64.0;
+    let p = rng.below(n as u64) as usize;
+    let upper = rng.chance(1, 2);
+    let mut a = vec![0.0; n * n];
+    for i in 0..n {
+        for c in 0..n {
+            let t: i64 = if i == c {
+                if i == p { 64 } else { rng.range(-31, 31) }
+            } else if (upper && c > i) || (!upper && c < i) {
+                if rng.chance(1, 4) { 0 } else { rng.range(-48, 48) }
+            } else {
+                0
+            };
+            a[i * n + c] = if t == 0 && rng.chance(1, 8) { -0.0 } else { t as f64 * unit };
+        }
+    }
+    a
+}
+
+/// Markov matrices with exact dyadic entries: G = (1-a) P + a w 1^T with P column-stochastic, w a distribution,
+/// a = 1/2 or 3/4 (dominant eigenvalue exactly 1, |l2| <= 1-a); column-stochastic (the eigenvector is the stationary
+/// distribution, the LEFT eigenvector is the all-ones vector) or its transpose (the start vector is the eigenvector)
+fn markov_case(rng: &mut Rng, n: usize) -> Vec<f64> {
+    let dist = |rng: &mut Rng| -> Vec<i64> {
+        // n non-negative integers summing to 64
+        let mut v = vec![0i64; n];
+        for _ in 0..64 {
+            let k = if rng.chance(1, 3) { 0 } else { rng.below(n as u64) as usize };
+            v[k] += 1;
+        }
+        let r = rng.below(n as u64) as usize;
+        v.rotate_left(r);
+        v
+    };
+    let a4 = *rng.pick(&[2i64, 3]); // a = a4/4
+    let w = dist(rng);
+    let mut g = vec![0i64; n * n]; // entries in units of 1/256
+    for c in 0..n {
+        let pc = dist(rng);
+        for r in 0..n {
+            g[r * n + c] = (4 - a4) * pc[r] + a4 * w[r];
+        }
+    }
+    let transpose = rng.chance(1, 3);
+    let scale = match rng.below(4) {
+        0 => exact_scale(rng),
+        _ => 1.0,
+    };
+    let mut a = vec![0.0; n * n];
+    for r in 0..n {
+        for c in 0..n {
+            let x = g[r * n + c] as f64 / 256.0 * scale;
+            if transpose { a[c * n + r] = x } else { a[r * n + c] = x }
+        }
+    }
+    a
+}
+
+fn hardening(rng: &mut Rng, thorough: bool, emit: &mut dyn FnMut(String)) {
+    // non-symmetric, constructed inside the quantifier: n = 2..8
+    let per_n = if thorough { 1500 } else { 40 };
+    for _ in 0..per_n {
+        for n in 2..=8usize {
+            let (a, floor) = nsym_case(rng, n);
+            let es = tolerance_above(rng, floor);
+            emit_req(emit, "nsym", n, n, &a, es);
+        }
+    }
+    // triangular and Markov: judged when the plug-in's reference finds them inside the quantifier
+    let per_n = if thorough { 500 } else { 16 };
+    for r in 0..per_n {
+        for n in 2..=8usize {
+            let a = if (r + n) % 2 == 0 { triangular_case(rng, n) } else { markov_case(rng, n) };
+            let es = tolerance(rng);
+            emit_req(emit, "gen", n, n, &a, es);
+        }
+    }
+    // small non-symmetric integer matrices: all 2x2 with entries -3..3 in the thorough tier, random n = 2..4 in both
+    if thorough {
+        for a in -3i64..=3 {
+            for b in -3i64..=3 {
+                for c in -3i64..=3 {
+                    for d in -3i64..=3 {
+                        let es = *rng.pick(&[1e-4, 1e-6, 1e-8, 1e-10, 1e-12]);
+                        emit_req(emit, "gen", 2, 2, &[a as f64, b as f64, c as f64, d as f64], es);
+                    }
+                }
+            }
+        }
+    }
+    // (every second one with one diagonal entry pushed out, which usually gives a real dominant eigenvalue with a gap;
+    // the plain ones often have a complex or +-lambda dominant pair and run into the iteration cap)
+    for k in 0..(if thorough { 3000 } else { 60 }) {
+        let n = 2 + rng.below(3) as usize;
+        let r = *rng.pick(&[2i64, 3, 5, 9]);
+        let mut a: Vec<f64> = (0..n * n).map(|_| rng.range(-r, r) as f64).collect();
+        if k % 2 == 0 || (!thorough && k % 4 != 1) {
+            let p = rng.below(n as u64) as usize;
+            let boost = (rng.range(2 * r, 4 * r)) as f64;
+            a[p * n + p] += if rng.chance(1, 2) { -boost } else { boost };
+        }
+        let es = tolerance(rng);
+        emit_req(emit, "gen", n, n, &a, es);
+    }
+    // sizes just beyond: every n = 9..40, symmetric and non-symmetric (blocked / unrolled products)
+    let reps = if thorough { 12 } else { 1 };
+    for _ in 0..reps {
+        for n in 9..=40usize {
+            let a = accuracy_case(rng, n);
+            let es = tolerance(rng);
+            emit_req(emit, "accbig", n, n, &a, es);
+            let (a, floor) = nsym_case(rng, n);
+            let es = tolerance_above(rng, floor);
+            emit_req(emit, "nsymbig", n, n, &a, es);
+        }
+    }
+    // termination half beyond its usual sizes and tolerances: tolerances at and below rounding level, at and above 1,
+    // subnormal, infinite; sizes up to 12; matrices that converge (the stopping rule must still be the only way out)
+    let pick_half = rng.below(2);
+    let extremes = [1e-13, 1e-15, 1e-16, 2.220446049250313e-16, 1e-17, 5e-324, 1e-300, 0.5, 1.0, 2.0, 10.0, 1e300, f64::INFINITY, f64::NEG_INFINITY, -0.0];
+    for (k, es) in extremes.iter().enumerate() {
+        // quick tier: every second tolerance, alternating with the seed
+        if !thorough && (k as u64 + pick_half) % 2 == 1 {
+            continue;
+        }
+        let n = 1 + (k * 5) % 12;
+        let a = if k % 3 == 0 { nsym_case(rng, n.max(2)).0 } else { accuracy_case(rng, n) };
+        let n = if k % 3 == 0 { n.max(2) } else { n };
+        emit_req(emit, "term", n, n, &a, *es);
+        if thorough || k % 4 == 0 {
+            let kind = (k % 7) as u64;
+            let tn = 6 + k % 7;
+            let a = termination_case(rng, tn, kind);
+            emit_req(emit, "term", tn, tn, &a, *es);
+        }
+    }
+}
+
+/// The requests that run into the iteration cap cost a thousand times more than the others and come in runs
+/// (termination half, integer matrices with complex or +-lambda pairs); `check` splits the batch into contiguous
+/// slices, one per core, so the requests are emitted in a strided order that gives every slice the same mix.
 pub fn generate(seed: u64, thorough: bool, emit: &mut dyn FnMut(String)) {
+    let mut all: Vec<String> = Vec::new();
+    generate_in_order(seed, thorough, &mut |l| all.push(l));
+    const STRIDE: usize = 16;
+    for off in 0..STRIDE {
+        let mut i = off;
+        while i < all.len() {
+            emit(std::mem::take(&mut all[i]));
+            i += STRIDE;
+        }
+    }
+}
+
+fn generate_in_order(seed: u64, thorough: bool, emit: &mut dyn FnMut(String)) {
+    {
+        let mut r2 = Rng::new(seed ^ 0xC13_0001);
+        hardening(&mut r2, thorough, emit);
+    }
     let mut rng = Rng::new(seed ^ 0xC13);
     // shape half: every non-square or empty shape in 0..4 x 0..4 and a few larger ones
     for h in 0..=4usize {
